@@ -4,7 +4,8 @@
    eval_item / var_eval = the code after the two fix: commits; eval_item_orig = the pinned commit (refuted below).
    clean / plain_refs: no collection type / no referenced type carries allowed values (where the pinned commit was right). *)
 From Coq Require Import List NArith Bool Arith.
-From DV Require Import C16.Model C16.Proofs C16.Rel C11.Model C11.Proofs C11.ConfModel C11.ConfProofs C11.NullAlt.
+From DV Require Import C16.Model C16.Proofs C16.Rel C11.Model C11.Proofs C11.ConfModel C11.ConfProofs C11.NullAlt C11.Order.
+From Coq Require Import Permutation.
 Import ListNotations.
 
 (* the copy-pasted closures all compute the one generic function of their simple type *)
@@ -225,6 +226,32 @@ Theorem C11_null_alternative_first_refuted :
   av_ok_code (Some [ULit SNumber 5%N; UNull]) (VAtom SNumber 5%N) = true /\ av_ok_code (Some [ULit SNumber 5%N; UNull]) (VAtom SNumber 6%N) = false.
 Proof. exact null_first_witness. Qed.
 
+(* The document order of the item definitions is irrelevant (C11/Order.v): a list of definitions with distinct names and any permutation of it
+   give the same checked input, the same FEEL type of a typed variable and the same coerced result - also for references that point forwards. *)
+Theorem C11_definition_order_irrelevant : forall D D', NoDup (map fst D) -> Permutation D D' ->
+  forall f T v r res,
+    eval_item f D T v = eval_item f D' T v /\ check f D T v = check f D' T v /\
+    var_type f D r = var_type f D' r /\ output_value f D r res = output_value f D' r res.
+Proof.
+  intros D D' ND P f T v r res.
+  pose proof (perm_same_lookup D D' ND P) as S.
+  assert (C : check f D T v = check f D' T v) by (unfold check; apply gcheck_order; exact S).
+  repeat split.
+  - rewrite !impl_refines. exact C.
+  - exact C.
+  - apply var_type_order. exact S.
+  - unfold output_value. rewrite (var_type_order D D' S). reflexivity.
+Qed.
+Example C11_definition_order_nonvacuous :
+  let D := [(1%N, IComp [(1%N, IRef 2%N None)] None); (2%N, ISimple PNumber None)] in
+  NoDup (map fst D) /\ Permutation D (rev D) /\
+  var_type 5 D (RNamed 1%N) = TCtx [(1%N, TS SNumber)] /\ var_type 5 (rev D) (RNamed 1%N) = TCtx [(1%N, TS SNumber)].
+Proof.
+  cbn zeta. repeat split.
+  - cbn. constructor; [intros [H|[]]; discriminate | constructor; [intros [] | constructor]].
+  - apply Permutation_rev.
+Qed.
+
 Print Assumptions C11_copies_uniform_simple.
 Print Assumptions C11_copies_uniform_collection.
 Print Assumptions C11_copies_uniform_variable.
@@ -273,3 +300,5 @@ Print Assumptions C11_null_alternative_code_sound.
 Print Assumptions C11_null_alternative_last_agrees.
 Print Assumptions C11_null_alternative_code_vs_spec.
 Print Assumptions C11_null_alternative_first_refuted.
+Print Assumptions C11_definition_order_irrelevant.
+Print Assumptions C11_definition_order_nonvacuous.
